@@ -15,6 +15,7 @@ require (
 	github.com/veraison/go-cose v1.3.0
 	golang.org/x/crypto v0.37.0
 	golang.org/x/mod v0.24.0
+	golang.org/x/tools v0.29.0
 	oras.land/oras-go/v2 v2.5.0
 )
 
